@@ -663,7 +663,14 @@ class TestCase(unittest.TestCase):
             # Backwards compat: if we can't call the constructor
             # with last_resort, try without that.
             run_test = self.__RunTest(self, self.exception_handlers)
-        return run_test.run(result)
+        # Handlers added with addOnException while the test runs belong to
+        # this run only (like cleanups and details): forget them afterwards,
+        # or a setUp that registers one would add another copy per run.
+        handlers_before_run = len(self.__exception_handlers)
+        try:
+            return run_test.run(result)
+        finally:
+            del self.__exception_handlers[handlers_before_run:]
 
     def _run_setup(self, result):
         """Run the setUp function for this test.
